@@ -592,7 +592,7 @@ Proof.
   destruct (lu_factor_spec A p EF) as (HP & HL & Hdiag & HFI). cbn [fst snd] in *.
   destruct (solve_all_spec A p HL t Ht) as [_ Hcols].
   destruct (PermOK_surj p r HP Hr) as (i & Hi & Epi).
-  pose proof (column_solves A p (view A0 p) k _ Hk Hdiag HFI (Hcols k Hk) i Hi) as Hsol.
+  pose proof (column_solves A p HL (view A0 p) k _ Hk Hdiag HFI (Hcols k Hk) i Hi) as Hsol.
   rewrite Epi in Hsol. rewrite <- Hsol. unfold mat_mul_get. apply sumn_ext. intros j Hj.
   unfold mat_get, view, mg. rewrite Epi. reflexivity.
 Qed.
